@@ -98,6 +98,11 @@ def eval_hist(case, engine, acc=None):
         bogus = sorted(k for k in run1.unmet_in if k not in readers)
         if bogus:
             fs.append(F(ID, 'C13.diag', 'unread-input-reported', f'run 1 reports {bogus[:4]} as missing although no evaluated line read them'))
+    if run1.outcome in ('solved', 'failed') and run1.unmet_in and not run1.monitor.refused and run1.kind == 'return':
+        # demand-exact in the other direction: the user answered every question and never refused, so whatever an evaluated line
+        # found absent has been asked for - a run that ends with needed inputs it never asked for stopped asking on its own
+        fs.append(F(ID, 'C13.demand', 'needed-input-never-asked',
+                    f'run 1: the user never refused, yet the run ended with {sorted(run1.unmet_in)[:5]} needed and never asked for'))
     run2 = None
     if after is not None and run1.kind == 'return':
         sol1 = run1.solution_file
@@ -109,8 +114,10 @@ def eval_hist(case, engine, acc=None):
         again = sorted(set(run2.monitor.prompted) & set(run1.answers))
         if again:
             fs.append(F(ID, 'C13.rerun', 'asked-again', f're-run asked again for {again[:5]}'))
-        if not run1.monitor.refused and run1.outcome == 'solved' and run2.monitor.prompted:
-            fs.append(F(ID, 'C13.rerun', 'asked-something', f're-run after a complete solved run asked for {run2.monitor.prompted[:5]}'))
+        if not run1.monitor.refused and run1.outcome in ('solved', 'failed') and run2.monitor.prompted:
+            # (also after a run that failed for something unimplemented: nobody refused, so it had asked for everything it could use)
+            fs.append(F(ID, 'C13.rerun', 'asked-something',
+                        f're-run after a complete run ({run1.outcome}, nobody refused) asked for {run2.monitor.prompted[:5]}'))
         if not run1.monitor.refused and run1.outcome in ('solved', 'failed') and run2.kind == 'return':
             # the second run may ask for more only if the first did not get to ask (failed for other reasons); compare when nothing was asked
             if not run2.monitor.prompted:
@@ -195,7 +202,7 @@ def make_case(engine, seed):
         case['file'] = [n for n in case['file'] if rng.chance(0.5) or case['persona'][n]['invalid']]
         return case
     if engine.startswith('synth'):
-        case = gen.gen_case(seed, force_faults=rng.pick([[], [], [], ['notimpl'], ['cycle'], ['dup'], ['none']]),
+        case = gen.gen_case(seed, force_faults=rng.pick([[], [], [], ['notimpl'], ['notimpl'], ['notimpl', 'dup'], ['cycle'], ['dup'], ['none']]),
                             percent=rng.chance(0.12))
         case['prompt'] = True
         case['refuse_at'] = None
